@@ -260,6 +260,42 @@ static void h_pbq_t()
     VREACH("end");
 }
 
+#ifndef PN0
+#define PN0 1
+#define PN1 1
+#endif
+// priority kernel: DerivePriority and Priority::operator<=> against the documented order, for two send lists of concrete lengths with symbolic contents
+template <int N0, int N1>
+static void h_prio_t()
+{
+    const int N[2] = {N0, N1};
+    std::vector<PrivateBroadcast::SendStatus>* v[2];
+    g_maxsend = 8;
+    for (int i = 0; i < 2; i++) {
+        v[i] = new std::vector<PrivateBroadcast::SendStatus>();
+        M[i].present = true; M[i].n = N[i]; M[i].added = 0;
+        for (int k = 0; k < N[i]; k++) {
+            MSend& s = M[i].s[k];
+            s.node = nondet_i64(); s.picked = (int64_t)nondet_range(1, (uint64_t)1 << 61); s.conf = nondet_bool(); s.conft = s.conf ? (int64_t)nondet_range(1, (uint64_t)1 << 61) : 0;
+            v[i]->emplace_back(s.node, CService{}, NodeClock::time_point{std::chrono::nanoseconds{s.picked}});
+            if (s.conf) v[i]->back().confirmed = NodeClock::time_point{std::chrono::nanoseconds{s.conft}};
+        }
+    }
+    const PrivateBroadcast::Priority p0 = PrivateBroadcast::DerivePriority(*v[0]), p1 = PrivateBroadcast::DerivePriority(*v[1]);
+    VASSERT(p0.num_picked == (size_t)N0 && p0.num_confirmed == (size_t)m_conf(0) && ns(p0.last_picked) == m_lastpick(0) && ns(p0.last_confirmed) == m_lastconf(0), "DerivePriority: number of sends, confirmations, most recent send and confirmation");
+    VASSERT(p1.num_picked == (size_t)N1 && p1.num_confirmed == (size_t)m_conf(1) && ns(p1.last_picked) == m_lastpick(1) && ns(p1.last_confirmed) == m_lastconf(1), "DerivePriority: number of sends, confirmations, most recent send and confirmation");
+    const bool gt = p0 > p1, lt = p0 < p1, eq = (p0 <=> p1) == 0;
+    verif_observe((gt ? 4 : 0) + (lt ? 2 : 0) + (eq ? 1 : 0));
+    VASSERT(gt == m_more_urgent(0, 1), "priority is higher exactly when more urgent: fewer sends, then fewer confirmations, then older send, then older confirmation");
+    VASSERT(lt == m_more_urgent(1, 0), "priority is lower exactly when the other is more urgent");
+    VASSERT(eq == (!m_more_urgent(0, 1) && !m_more_urgent(1, 0)), "equal priority exactly when all four keys are equal");
+    if constexpr (N0 == N1 && N0 > 0) { VWITNESS(gt, "tie_on_counts_decided_by_times_gt"); VWITNESS(lt, "tie_on_counts_decided_by_times_lt"); }
+    if constexpr (N0 == N1) VWITNESS(eq, "equal");
+    if constexpr (N0 < N1) VWITNESS(gt, "fewer_sends_wins");
+    VREACH("end");
+}
+extern "C" void h_prio() { h_prio_t<PN0, PN1>(); }
+
 // limits of the property: the defaults are 10,000 transactions / 1,000 sends and the default constructor installs them
 extern "C" void h_limits()
 {
